@@ -559,6 +559,65 @@ def bound_decl_probe(cx: Ctx):
     return rows
 
 
+def _url(o):
+    try:
+        return o.get_url()
+    except Exception:  # noqa: BLE001
+        return None
+
+
+def graph_node_probe(cx: Ctx):
+    """`ford.graphs.BaseNode.__init__` (the constructor every graph node class runs first) on copies of the real objects
+    of the probe project that have a URL - one per class - and on one without (an internal procedure), for `visible`
+    true / false / absent x `visible` of the parent true / false / absent.
+    -> rows [(class, is a type-bound procedure, has a URL, visible, parent visible, the node carries a URL attribute,
+              that URL is parent_dir + get_url())]"""
+    import ford.graphs as gr
+
+    gd = gr.GraphData("../", False, False)
+    rows = []
+    subjects = []
+    for cname in sorted(cx.by_class):
+        cands = [o for o in cx.objects if type(o).__name__ == cname and hasattr(o, "get_url") and hasattr(o, "ident")]
+        if not cands:
+            continue
+        with_url = [o for o in cands if _url(o)]
+        without = [o for o in cands if not _url(o)]
+        subjects += with_url[:1] + without[:1]
+    for inst in subjects:
+        url = _url(inst)
+        if getattr(inst, "parent", None) is None and type(inst).__name__ != "FortranSourceFile":
+            continue
+        for vis in ("true", "false", "absent"):
+            for pvis in ("true", "false", "absent"):
+                o = copy.copy(inst)
+                vars(o).pop("external_url", None)
+                if o.parent is not None:
+                    o.parent = copy.copy(inst.parent)
+                    if pvis == "absent":
+                        vars(o.parent).pop("visible", None)
+                    else:
+                        o.parent.visible = pvis == "true"
+                elif pvis != "absent":
+                    continue
+                if vis == "absent":
+                    vars(o).pop("visible", None)
+                else:
+                    o.visible = vis == "true"
+                if hasattr(type(o), "visible") or (o.parent is not None and hasattr(type(o.parent), "visible")):
+                    cx.anomalies.append(f"graph_node_probe: {type(o).__name__} has a class-level `visible`")
+                try:
+                    node = gr.BaseNode(o, gd)
+                except Exception as ex:  # noqa: BLE001
+                    cx.anomalies.append(f"graph_node_probe: BaseNode({type(o).__name__}) raised {type(ex).__name__}: {ex}")
+                    continue
+                got = node.attribs.get("URL")
+                own = _url(o)  # (the copy has an identifier of its own)
+                rows.append((type(inst).__name__, isinstance(o, cx.sf.FortranBoundProcedure), bool(url), vis, pvis,
+                             got is not None, got == ("../" + own if own else None)))
+    return sorted(set(rows))
+
+
 def should_display_probe(cx: Ctx):
     """-> groups [[classes sharing one `_should_display` + `filter_display`]], rows per group
     [(hide_undoc, documented, permission code, display codes, kept)]"""
